@@ -42,6 +42,7 @@ package verifhook
 import (
 	"math/rand"
 	"os"
+	"reflect"
 	"runtime"
 	"sync"
 	"sync/atomic"
@@ -222,15 +223,62 @@ var B func()
 // G, when set, starts f as a new simulated task.
 var G func(f func())
 
+// foreign > 0: code of the library is running on a goroutine that is NOT a task
+// of the simulator (a finalizer, a time.AfterFunc callback). Such a goroutine
+// must never enter the scheduler — it would be taken for the current task. While
+// one runs, statement-level yields are skipped for every goroutine (telling the
+// caller apart costs a stack dump: affordable at blocking points, not before
+// every statement); the schedule of that run is then not fully the simulator's,
+// which may cost replayability, never a hang.
+var foreign int32
+var foreignIDs sync.Map // goroutine id -> struct{}
+
+// goid parses the goroutine id out of the stack header (slow: only used while a
+// foreign goroutine is active).
+func goid() uint64 {
+	var buf [64]byte
+	b := buf[:runtime.Stack(buf[:], false)]
+	id := uint64(0)
+	for _, c := range b[len("goroutine "):] {
+		if c < '0' || c > '9' {
+			break
+		}
+		id = id*10 + uint64(c-'0')
+	}
+	return id
+}
+
+func foreignCall(f func()) {
+	id := goid()
+	foreignIDs.Store(id, struct{}{})
+	atomic.AddInt32(&foreign, 1)
+	defer func() {
+		atomic.AddInt32(&foreign, -1)
+		foreignIDs.Delete(id)
+	}()
+	f()
+}
+
+// onForeign reports whether the CALLING goroutine is a foreign one.
+func onForeign() bool {
+	if atomic.LoadInt32(&foreign) == 0 {
+		return false
+	}
+	_, ok := foreignIDs.Load(goid())
+	return ok
+}
+
 // Yield is called before every statement of the instrumented packages.
 func Yield() {
-	if Y != nil {
+	if Y != nil && atomic.LoadInt32(&foreign) == 0 {
 		Y()
 	}
 }
 
 func block() {
-	if B != nil {
+	// (a TASK that cannot proceed must give way even while a foreign goroutine
+	// is active — it may be waiting for the very lock a parked task holds)
+	if B != nil && !onForeign() {
 		B()
 		return
 	}
@@ -240,11 +288,34 @@ func block() {
 // Go stands in for the go statement (function value and arguments are
 // evaluated by the caller, as the go statement does).
 func Go(f func()) {
-	if G != nil {
+	if G != nil && !onForeign() {
 		G(f)
 		return
 	}
+	if G != nil {
+		go foreignCall(f) // started by a foreign goroutine: foreign too
+		return
+	}
 	go f()
+}
+
+// SetFinalizer stands in for runtime.SetFinalizer: the finalizer runs on the
+// runtime's finalizer goroutine, i.e. as foreign code.
+func SetFinalizer(obj interface{}, finalizer interface{}) {
+	if finalizer == nil || reflect.TypeOf(finalizer).Kind() != reflect.Func {
+		runtime.SetFinalizer(obj, finalizer)
+		return
+	}
+	fv := reflect.ValueOf(finalizer)
+	runtime.SetFinalizer(obj, reflect.MakeFunc(fv.Type(), func(args []reflect.Value) (out []reflect.Value) {
+		foreignCall(func() { out = fv.Call(args) })
+		return
+	}).Interface())
+}
+
+// AfterFunc stands in for time.AfterFunc: f runs on a goroutine of the runtime.
+func AfterFunc(d time.Duration, f func()) *time.Timer {
+	return time.AfterFunc(d, func() { foreignCall(f) })
 }
 
 // Mutex stands in for sync.Mutex.
@@ -334,7 +405,7 @@ const yieldText = "verifhook.Yield(); "
 
 // seamed: the selectors of package time and of math/rand (v1 and v2, package-
 // level functions only) that are redirected to verifhook.
-var seamedTime = map[string]bool{"Now": true, "Since": true, "Until": true, "Sleep": true}
+var seamedTime = map[string]bool{"Now": true, "Since": true, "Until": true, "Sleep": true, "AfterFunc": true}
 var seamedRand = map[string]bool{"Uint64": true, "Uint32": true, "Int63": true, "Int31": true, "Int": true, "Float64": true, "Float32": true, "Seed": true,
 	"Int63n": true, "Int31n": true, "Intn": true, "Perm": true, "Shuffle": true, "Read": true,
 	"IntN": true, "Int64N": true, "Int32N": true, "Uint64N": true, "Uint32N": true, "Int64": true, "Int32": true}
@@ -365,7 +436,8 @@ func seamFile(path string) (int, error) {
 	timeName := importName(f, "time", "time")
 	randName := importName(f, "math/rand", "rand")
 	rand2Name := importName(f, "math/rand/v2", "rand")
-	if timeName == "" && randName == "" && rand2Name == "" {
+	rtName := importName(f, "runtime", "runtime")
+	if timeName == "" && randName == "" && rand2Name == "" && rtName == "" {
 		return 0, nil
 	}
 	type edit struct {
@@ -387,6 +459,10 @@ func seamFile(path string) (int, error) {
 		case timeName != "" && id.Name == timeName && seamedTime[se.Sel.Name]:
 			edits = append(edits, edit{fset.Position(se.Pos()).Offset, fset.Position(se.End()).Offset, "verifhook." + se.Sel.Name})
 			used[timeName+".Duration"] = true
+		case rtName != "" && id.Name == rtName && se.Sel.Name == "SetFinalizer":
+			// (a finalizer runs on a goroutine of the runtime: see verifhook.SetFinalizer)
+			edits = append(edits, edit{fset.Position(se.Pos()).Offset, fset.Position(se.End()).Offset, "verifhook.SetFinalizer"})
+			used[rtName+".Error"] = true
 		case randName != "" && id.Name == randName && seamedRand[se.Sel.Name]:
 			edits = append(edits, edit{fset.Position(se.Pos()).Offset, fset.Position(se.End()).Offset, "verifhook.Rand" + se.Sel.Name})
 			used[randName+".Source"] = true
